@@ -344,3 +344,156 @@ Proof.
     cbn [rbind fst snd] in H. rewrite Ha in H. cbn [rbind] in H. inversion H; subst s' d'.
     eapply close_txns_vz; eauto.
 Qed.
+
+(* ------------------------------------------------------------ Part 5: the postings the close stage adds *)
+
+Lemma oz_eqb_refl o : oz_eqb o o = true.
+Proof. apply oz_eqb_eq. reflexivity. Qed.
+
+Lemma days_postings_date ds dp : days_dated ds -> In dp (days_postings ds) -> In (fst dp) (dates ds).
+Proof.
+  intros Hd. unfold days_postings, dates. induction Hd as [|d ds Hx _ IH]; cbn [map concat]; [intros []|].
+  intros Hin. apply in_app_or in Hin. destruct Hin as [Hin|Hin]; [left; symmetry; eapply day_postings_date; eauto|right; auto].
+Qed.
+
+Section CloseRows.
+  Variable starts : list Z.
+  Hypothesis starts_sorted : StronglySorted Z.lt starts.
+
+  Lemma nxt_gt d s : nxt starts d = Some s -> (d < s)%Z /\ In s starts.
+  Proof. unfold nxt. intros H. apply find_some in H. destruct H as [H1 H2]. split; [lia|exact H1]. Qed.
+
+  Lemma nxt_le : forall S d, In S starts -> (d < S)%Z -> exists s', nxt starts d = Some s' /\ (s' <= S)%Z.
+  Proof.
+    unfold nxt. induction starts_sorted as [|s0 rest Hs IH Hall]; intros S d Hin Hlt; [destruct Hin|].
+    cbn [find]. rewrite Forall_forall in Hall. destruct (d <? s0)%Z eqn:E.
+    - exists s0. split; [reflexivity|]. destruct Hin as [->|Hin]; [lia|]. specialize (Hall _ Hin). lia.
+    - destruct Hin as [->|Hin]; [lia|]. apply IH; assumption.
+  Qed.
+
+  (* what the closable postings of l owe to the closing day o *)
+  Definition owed (o : option Z) (g : account -> commodity -> Q) (l : list (Z * posting)) : Q :=
+    qsum (fun dp => if closable_dp dp && oz_eqb (nxt starts (fst dp)) o
+                    then g (p_acc (snd dp)) (p_com (snd dp)) * dvalue (p_qty (snd dp)) else 0) l.
+
+  Lemma owed_app o g l1 l2 : owed o g (l1 ++ l2) == owed o g l1 + owed o g l2.
+  Proof. apply qsum_app. Qed.
+
+  Lemma owed_later S g l : (forall dp, In dp l -> (S <= fst dp)%Z) -> owed (Some S) g l == 0.
+  Proof.
+    intros H. apply qsum_zero. intros dp Hin. destruct (closable_dp dp); [|reflexivity]. cbn [andb].
+    destruct (oz_eqb (nxt starts (fst dp)) (Some S)) eqn:E; [|reflexivity].
+    apply oz_eqb_eq in E. apply nxt_gt in E. specialize (H _ Hin). lia.
+  Qed.
+
+  Lemma owed_own cur g l : (forall dp, In dp l -> fst dp = cur) -> owed (nxt starts cur) g l == psum g l.
+  Proof.
+    intros H. apply qsum_ext. intros dp Hin. rewrite (H _ Hin), oz_eqb_refl, andb_true_r. reflexivity.
+  Qed.
+
+  Lemma owed_before cur g l : In cur starts -> (forall dp, In dp l -> (fst dp < cur)%Z) -> owed (nxt starts cur) g l == 0.
+  Proof.
+    intros Hc H. apply qsum_zero. intros dp Hin. destruct (closable_dp dp); [|reflexivity]. cbn [andb].
+    destruct (oz_eqb (nxt starts (fst dp)) (nxt starts cur)) eqn:E; [|reflexivity]. exfalso.
+    apply oz_eqb_eq in E. destruct (nxt_le cur (fst dp) Hc (H _ Hin)) as (s' & Hs' & Hle).
+    rewrite Hs' in E. symmetry in E. apply nxt_gt in E. lia.
+  Qed.
+
+  Definition close_state_at (ALL : list (Z * posting)) (S : Z) (m vs : positions) : Prop :=
+    map_ok m /\ vals_zero vs /\ forall g, msum g m == owed (Some S) g ALL.
+
+  Lemma close_days_set : forall ds done lo s s' ds',
+    StronglySorted Z.lt (dates ds) -> days_dated ds ->
+    (forall dp, In dp done -> (fst dp <= lo)%Z) -> (forall x, In x (dates ds) -> (lo < x)%Z) ->
+    (forall s0, In s0 starts -> (lo < s0)%Z -> In s0 (dates ds)) ->
+    map_ok (c_qty s) -> vals_zero (c_val s) ->
+    posts_ok (days_postings ds) -> pvals_zero (days_postings ds) ->
+    (forall g, msum g (c_qty s) == owed (firstclose starts ds) g done) ->
+    process_days (close_proc starts) s ds = ROk (s', ds') ->
+    (forall x, In x (days_postings ds') -> In x (days_postings ds) \/
+        exists S m vs, In S (dates ds) /\ In S starts /\ close_state_at (done ++ days_postings ds) S m vs
+                       /\ In x (txns_postings (closing_txns S m vs)))
+    /\ (forall x, In x (days_postings ds) -> In x (days_postings ds'))
+    /\ (forall S, In S (dates ds) -> In S starts ->
+          exists m vs, close_state_at (done ++ days_postings ds) S m vs
+                       /\ forall x, In x (txns_postings (closing_txns S m vs)) -> In x (days_postings ds')).
+  Proof.
+    induction ds as [|d ds IH]; intros done lo s s' ds' Hs Hdt Hdone Hlo Hcov Hm Hv Hok Hpv Hinv H; cbn [process_days] in H.
+    - inversion H; subst. split; [intros x []|]. split; [intros x []|intros S []].
+    - destruct (process_day (close_proc starts) s d) as [[s1 d1]| |] eqn:E1; try discriminate.
+      cbn [rbind fst snd] in H.
+      destruct (process_days (close_proc starts) s1 ds) as [[s2 ds2]| |] eqn:E2; try discriminate.
+      cbn [rbind fst snd] in H. inversion H; subst s' ds'. clear H.
+      unfold dates in Hs, Hlo, Hcov. cbn [map] in Hs, Hlo, Hcov.
+      inversion Hs as [|? ? Hs' Hall]; subst. rewrite Forall_forall in Hall.
+      inversion Hdt as [|? ? Hd Hdt']; subst.
+      assert (Hokd : posts_ok (day_postings d) /\ posts_ok (days_postings ds)).
+      { unfold days_postings in Hok. cbn [map concat] in Hok. apply posts_ok_app in Hok. exact Hok. }
+      destruct Hokd as [Hokd Hokr].
+      assert (Hpvd : pvals_zero (day_postings d) /\ pvals_zero (days_postings ds)).
+      { unfold days_postings in Hpv. cbn [map concat] in Hpv. split; intros dp Hin; apply Hpv; apply in_or_app; [left|right]; exact Hin. }
+      destruct Hpvd as [Hpvd Hpvr].
+      set (cur := d_date d) in *.
+      assert (Hown : forall dp, In dp (day_postings d) -> fst dp = cur) by (intros dp Hin; eapply day_postings_date; eauto).
+      assert (Hcov' : forall s0, In s0 starts -> (cur < s0)%Z -> In s0 (dates ds)).
+      { intros s0 Hin Hlt. destruct (Hcov s0 Hin) as [E|E]; [specialize (Hlo _ (or_introl eq_refl)); lia|lia|exact E]. }
+      assert (Hfc : firstclose starts ds = nxt starts cur).
+      { unfold firstclose. apply (firstclose_nxt starts starts_sorted cur (dates ds) Hs' Hall Hcov'). }
+      assert (Hlater : forall dp, In dp (days_postings (d :: ds)) -> (cur <= fst dp)%Z).
+      { intros dp Hin. unfold days_postings in Hin. cbn [map concat] in Hin. apply in_app_or in Hin. destruct Hin as [Hin|Hin].
+        - rewrite (Hown _ Hin). lia.
+        - apply (days_postings_date ds dp Hdt') in Hin. specialize (Hall _ Hin). lia. }
+      destruct (close_day starts s d s1 d1 Hm Hokd E1) as (Hd1 & Hm1 & Hs1). fold cur in Hs1.
+      pose proof (close_day_vz starts s d s1 d1 Hv Hpvd E1) as Hv1.
+      assert (Hdone' : forall dp, In dp (done ++ day_postings d) -> (fst dp <= cur)%Z).
+      { intros dp Hin. apply in_app_or in Hin. destruct Hin as [Hin|Hin].
+        - specialize (Hdone _ Hin). specialize (Hlo _ (or_introl eq_refl)). lia.
+        - rewrite (Hown _ Hin). lia. }
+      assert (Hdlt : forall dp, In dp done -> (fst dp < cur)%Z).
+      { intros dp Hin. specialize (Hdone _ Hin). specialize (Hlo _ (or_introl eq_refl)). lia. }
+      assert (Hall_eq : (done ++ day_postings d) ++ days_postings ds = done ++ days_postings (d :: ds)).
+      { rewrite <- app_assoc. reflexivity. }
+      assert (Hinv1 : forall g, msum g (c_qty s1) == owed (firstclose starts ds) g (done ++ day_postings d)).
+      { intros g. rewrite Hfc, owed_app, (owed_own cur g _ Hown), (Hs1 g).
+        unfold firstclose in Hinv. unfold dates in Hinv. cbn [map find] in Hinv. fold cur in Hinv.
+        destruct (existsb (Z.eqb cur) starts) eqn:Ecl.
+        - assert (Hc : In cur starts).
+          { apply existsb_exists in Ecl. destruct Ecl as (y & Hy & Hey). apply Z.eqb_eq in Hey. subst y. exact Hy. }
+          rewrite (owed_before cur g done Hc Hdlt). ring.
+        - rewrite (Hinv g). change (find (fun x => existsb (Z.eqb x) starts) (map d_date ds)) with (firstclose starts ds).
+          rewrite Hfc. ring. }
+      destruct (IH (done ++ day_postings d) cur s1 s2 ds2 Hs' Hdt' Hdone' Hall Hcov' Hm1 Hv1 Hokr Hpvr Hinv1 E2) as (IA & IB & IC).
+      rewrite Hall_eq in IA, IC.
+      (* the closing day itself *)
+      assert (Hcl : existsb (Z.eqb cur) starts = true ->
+                    close_state_at (done ++ days_postings (d :: ds)) cur (c_qty s) (c_val s)).
+      { intros Ecl. split; [exact Hm|split; [exact Hv|]]. intros g.
+        unfold firstclose in Hinv. unfold dates in Hinv. cbn [map find] in Hinv. fold cur in Hinv. rewrite Ecl in Hinv.
+        rewrite owed_app, (owed_later cur g _ Hlater), (Hinv g). ring. }
+      assert (Hd1p : forall x, In x (day_postings d1) <->
+                 In x (day_postings d) \/ (existsb (Z.eqb cur) starts = true /\ In x (txns_postings (closing_txns cur (c_qty s) (c_val s))))).
+      { intros x. rewrite Hd1. fold cur. destruct (existsb (Z.eqb cur) starts).
+        - rewrite (day_postings_txns (set_txns _ _)). cbn [set_txns d_txns]. rewrite txns_postings_app, in_app_iff, <- day_postings_txns. tauto.
+        - split; [tauto|]. intros [Hx|[Hf _]]; [exact Hx|discriminate]. }
+      unfold days_postings at 1 3 5. cbn [map concat].
+      split; [|split].
+      + intros x Hx. apply in_app_or in Hx. destruct Hx as [Hx|Hx].
+        * apply Hd1p in Hx. destruct Hx as [Hx|[Ecl Hx]].
+          -- left. unfold days_postings. cbn [map concat]. apply in_or_app. left. exact Hx.
+          -- right. exists cur, (c_qty s), (c_val s). split; [left; reflexivity|]. split.
+             ++ apply existsb_exists in Ecl. destruct Ecl as (y & Hy & Hey). apply Z.eqb_eq in Hey. subst y. exact Hy.
+             ++ split; [apply Hcl; exact Ecl|exact Hx].
+        * destruct (IA x Hx) as [Hl|(S & m & vs & H1 & H2 & H3 & H4)].
+          -- left. unfold days_postings. cbn [map concat]. apply in_or_app. right. exact Hl.
+          -- right. exists S, m, vs. split; [right; exact H1|]. split; [exact H2|]. split; [exact H3|exact H4].
+      + intros x Hx. unfold days_postings in Hx. cbn [map concat] in Hx. apply in_app_or in Hx. apply in_or_app.
+        destruct Hx as [Hx|Hx]; [left; apply Hd1p; left; exact Hx|right; apply IB; exact Hx].
+      + intros S HS HSs. unfold dates in HS. cbn [map] in HS. destruct HS as [<-|HS].
+        * assert (Ecl : existsb (Z.eqb cur) starts = true).
+          { apply existsb_exists. exists cur. split; [exact HSs|apply Z.eqb_refl]. }
+          exists (c_qty s), (c_val s). split; [apply Hcl; exact Ecl|].
+          intros x Hx. apply in_or_app. left. apply Hd1p. right. split; [exact Ecl|exact Hx].
+        * destruct (IC S HS HSs) as (m & vs & H1 & H2). exists m, vs. split; [exact H1|].
+          intros x Hx. apply in_or_app. right. apply H2. exact Hx.
+  Qed.
+End CloseRows.
